@@ -43,4 +43,20 @@ instance : LinPre Int where
   le_trans := fun _ _ _ => Int.le_trans
   le_total := Int.le_total
 
+/-- PEP 440 comparison operators of a specifier clause (`===` is not modelled). -/
+inductive COp where
+  | gt | ge | lt | le | eq | ne | compat
+deriving DecidableEq, Repr
+
+def COp.str : COp → String
+  | .gt => ">" | .ge => ">=" | .lt => "<" | .le => "<=" | .eq => "==" | .ne => "!=" | .compat => "~="
+
+/-- One specifier clause `op version[.*]` as `packaging.specifiers.Specifier` holds it.
+    This is what the `simplified` field of a range/union remembers (as its text). -/
+structure Clause (α : Type) where
+  op : COp
+  ver : α
+  wild : Bool := false
+deriving DecidableEq, Repr
+
 end DepLogic
